@@ -12,7 +12,7 @@ for (func : get_chunk_size_functions_) {
     if (max == 0 || (size.max > 0 && size.max < max)) max = size.max;
 }
 chunk_size = default_size;
-if (max < min) throw "Can not create archetype: max < min";
+if (max > 0 && max < min) throw "Can not create archetype: max < min";   // max == 0: no maximum
 if (chunk_size < min) chunk_size = min;
 if (max > 0 && chunk_size > max) chunk_size = max;
 ```
@@ -42,7 +42,7 @@ registration order, on the new archetype's mask. -/
 def resolve (dflt : Nat) (fs : List Size) : Res :=
   let mn := fs.foldl foldMin 0
   let mx := fs.foldl foldMax 0
-  if mx < mn then .error mx mn
+  if mx > 0 ∧ mx < mn then .error mx mn
   else
     let c := if dflt < mn then mn else dflt
     .ok (if mx > 0 ∧ c > mx then mx else c)
